@@ -82,6 +82,26 @@ theorem C19_rebond_raises_stsei_only (h h' : HubSt) (e : HubEnv) (sender : Addr)
   obtain ⟨st, p, S, hst, hp, _, hms, h1, h2, h3, _, _⟩ := C04_bond_rewards h h' e sender funds ms hx
   exact ⟨st, p, hst, hp, h1, h2, h3, C04_bond_rewards_mints_nothing h e p ms hms⟩
 
+/-- ... and the stSei rate the hub stores after re-bonding is the new pool over *all* stSei claims:
+    the token's supply plus the requests still waiting in the open batch (whose stake is still in
+    the pool) — also when the whole supply has been sent to Unbond and only requests remain. -/
+theorem C19_rebond_rate_is_pool_over_claims (h h' : HubSt) (e : HubEnv) (sender : Addr) (funds : List (Denom × Nat))
+    (ms : List Msg) (hx : h.bondR e sender funds = .ok (h', ms))
+    (tok : Addr) (htok : h.stsei = some tok) (S : Nat) (hS : e.supplyOf tok = .ok S) :
+    h'.sRate = rateOf h'.sBond S h'.reqS ∧ h'.reqS = h.reqS ∧
+    (h'.sBond ≠ 0 → S + h.reqS ≠ 0 → h'.sRate = h'.sBond * D / (S + h.reqS)) := by
+  obtain ⟨st, p, S', hst, _, hS', _, _, _, _, hr, _⟩ := C04_bond_rewards h h' e sender funds ms hx
+  obtain ⟨_, st2, _, _, hst2, _, hh⟩ := bondR_spec h h' e sender funds ms hx
+  have est : st2 = st := by rw [hst] at hst2; injection hst2 with h1; exact h1.symm
+  have sb := (actualState_spec h st e hst).1
+  have e1 : S' = S := by
+    rw [hS']; simp only [sSupplyQ, sb.stsei, htok, hS]; rfl
+  have e2 : h'.reqS = h.reqS := by rw [hh, est]; exact sb.reqS
+  rw [e1] at hr
+  refine ⟨by rw [e2]; exact hr, e2, fun hb hc => ?_⟩
+  rw [hr, rateOf, if_neg (by intro hor; rcases hor with h1 | h1; exact hb h1; exact hc h1)]
+  rfl
+
 example : ∃ ms, dispatchMsgs { (default : DispSt) with keeperRate := D / 20, stDenom := 0, bDenom := 1 } 104 100 200 = .ok ms :=
   ⟨_, rfl⟩
 
